@@ -930,11 +930,17 @@ func (c *cluster) cycle(r *replica, input func() error, crashPoint int) bool {
 	// node.handleEvents: updateAppliedIndex
 	r.applied = r.sm.GetLastApplied()
 	r.peer.NotifyRaftLastApplied(r.applied)
+	unapplied := r.vp.Committed() > r.applied
+	term0, role0 := r.vp.Term(), r.vp.Role()
 	if input != nil {
 		if err := input(); err != nil {
 			c.fail("replica %d: handler returned error %v", r.id, err)
 			return false
 		}
+	}
+	if role := r.vp.Role(); unapplied && (role == raft.VCandidate || role == raft.VPreVoteCandidate || role == raft.VLeader) &&
+		role0 != raft.VLeader && (role != role0 || r.vp.Term() != term0) && !(role0 == raft.VCandidate && role == raft.VLeader) {
+		c.fail("C07: replica %d campaigned while committed entries (possibly a membership change) were unapplied", r.id)
 	}
 	more := r.sm.TaskQ().MoreEntryToApply()
 	if !(r.peer.HasUpdate(more) || r.confirmed != r.applied || r.compactTo > 0) {
@@ -1171,12 +1177,7 @@ func (c *cluster) Step(e uint32) (msg string) {
 	case evTimeout:
 		r := c.byID[uint64(a)]
 		c.used.timeouts++
-		unapplied := r.vp.Committed() > r.sm.GetLastApplied()
-		term0, role0 := r.vp.Term(), r.vp.Role()
 		c.cycle(r, func() error { r.vp.ForceElectionTimeout(); return r.peer.Tick() }, 0)
-		if unapplied && (r.vp.Term() != term0 || (r.vp.Role() != role0 && r.vp.Role() != raft.VFollower)) {
-			c.fail("C07: replica %d campaigned while committed entries (possibly a membership change) were unapplied", r.id)
-		}
 	case evHeartbeat:
 		r := c.byID[uint64(a)]
 		c.used.heartbeats++
